@@ -303,7 +303,19 @@ func c17Linearizable(evs []regEvent, names []string, initial map[string]int) (bo
 	return false, explain
 }
 
+// freshSerial numbers the executions of the fresh-names families of this process.
+var freshSerial int
+
+// c17FreshMenu: the operations whose behaviour can depend on a name being registered for the FIRST time.
+var c17FreshMenu = []c17Op{{"register", 0, 1}, {"register", 1, 2}, {"named", 0, 0}, {"list", 0, 0}, {"render", 0, 0}}
+
 func runC17sched(x *X, family string, nthreads, opsPer int, bound int) {
+	runC17schedMenu(x, family, nthreads, opsPer, bound, c17Menu, false)
+}
+
+// fresh: every execution uses names that were never registered in this process (first-time registrations are
+// explored even when nothing can be removed from the registry); the registry grows, so the menu is the short one.
+func runC17schedMenu(x *X, family string, nthreads, opsPer int, bound int, c17Menu []c17Op, fresh bool) {
 	x.Explore(family, ExploreOpts{ShardDepth: nthreads * opsPer, Bound: fmt.Sprintf("%d threads x %d op(s) each from an %d-op menu, every schedule with <=%d preemptions", nthreads, opsPer, len(c17Menu), bound)}, func(c *Chooser) {
 		prog := make([][]c17Op, nthreads)
 		var pd []string
@@ -315,10 +327,17 @@ func runC17sched(x *X, family string, nthreads, opsPer int, bound int) {
 		}
 		desc := strings.Join(pd, " || ")
 		serial := nextSerial(x)
+		if fresh {
+			freshSerial++
+			serial = fmt.Sprintf("fresh%07d", freshSerial)
+		}
 		names := []string{"n" + serial, "m" + serial, "never" + serial}
 		c.Logf("program %s (names %v)", desc, names)
 		defer resetNames(names...)
-		initial := prepareNames(names[0], names[1])
+		initial := map[string]int{}
+		if !fresh {
+			initial = prepareNames(names[0], names[1])
+		}
 		var log []regEvent
 		clock := 0
 		bodies := make([]func(), nthreads)
@@ -488,6 +507,12 @@ func runC17(x *X) {
 	})
 	runC17sched(x, "3-threads-1-op", 3, 1, x.Pick(2, 4))
 	runC17sched(x, "2-threads-2-ops", 2, 2, x.Pick(3, 1000))
+	if vrt.ResetHook == nil {
+		// nothing can be removed from this registry: the families above start every execution with the names already
+		// registered.  First-time registrations are explored here, with names never used before in the process.
+		runC17schedMenu(x, "fresh-names-2-threads-2-ops", 2, 2, x.Pick(2, 3), c17FreshMenu, true)
+		runC17schedMenu(x, "fresh-names-3-threads-1-op", 3, 1, x.Pick(2, 3), c17FreshMenu, true)
+	}
 	if x.Thorough() {
 		runC17sched(x, "3-threads-2-ops", 3, 2, 2)
 	}
